@@ -98,6 +98,13 @@ func runChain(t *testing.T, sp *chainSpec) {
 					} else if len(c.W.delegOps) > 0 {
 						pr = 3 * sp.pRestart
 					}
+					// ... and while an open proposal has an option at or above the majority threshold (tallies kept in
+					// memory and tallies decoded from the ledger have to agree when votes move afterwards)
+					for _, op := range c.W.Open {
+						if leadingOption(op) >= 0 && pr < 25 {
+							pr = 25
+						}
+					}
 					if pct(gs.t, pr, "restartAfter") {
 						b.RestartAfter = true
 					}
@@ -198,12 +205,15 @@ func TestC16(t *testing.T) {
 	runChain(t, &chainSpec{prop: "C16", pRestart: 3,
 		profile: func() *Profile {
 			p := defaultProfile()
-			p.MinBlocks, p.MaxBlocks = 6, 20
+			p.MinBlocks, p.MaxBlocks = 8, 26
 			p.MaxTxs = 12
+			p.PFault = 16
 			p.VaryGas = true
 			p.BlockGasBoundary = true
+			p.GasFaults = true
+			p.GovFocus = "gasPrice,minTrxGas"
 			p.PNoProposer = 15
-			p.W["propose"], p.W["vote"] = 10, 12
+			p.W["propose"], p.W["vote"] = 14, 20
 			return p
 		},
 		compare: func(c *Case, a *AppState, b *Block, br *BlockResult) {
@@ -421,7 +431,7 @@ func TestC14(t *testing.T) {
 // ---- C15 -------------------------------------------------------------------------
 
 func TestC15(t *testing.T) {
-	runChain(t, &chainSpec{prop: "C15", pRestart: 5, panicIsViolation: true,
+	runChain(t, &chainSpec{prop: "C15", pRestart: 8, panicIsViolation: true,
 		profile: func() *Profile {
 			p := defaultProfile()
 			p.MinBlocks, p.MaxBlocks = 12, 40
@@ -436,7 +446,7 @@ func TestC15(t *testing.T) {
 		},
 		compare: func(c *Case, a *AppState, b *Block, br *BlockResult) { c.W.CompareGov(c.Sim, "C15") },
 		nontrivial: func(c *Case) (bool, string) {
-			ks := []string{"proposal_applied", "revote", "proposal_frozen", "proposal_removed", "params_changed", "multi_apply_same_block", "evidence_hits_voter"}
+			ks := []string{"proposal_applied", "revote", "revote_took_majority_away", "tally_exactly_at_majority", "proposal_frozen", "proposal_removed", "params_changed", "multi_apply_same_block", "evidence_hits_voter"}
 			return feat(c, "proposal_applied") > 0, featShape(c, ks...)
 		},
 	})
